@@ -86,7 +86,7 @@ def run(res):
     res.cov["rule"] = ("corr-iso: groups of K in {2,5,16} (thorough: up to 8 groups) random packages that all declare structs R0..R2 with fields F1.. (same names, different "
                        "types and markers); every package generated alone, then all together with ./... under GOMAXPROCS 1/2/16 x 3 (thorough 12) repetitions on a fresh tree, "
                        "a 2nd and 3rd run over the generated tree, explicit directories in reverse order, directory and single-file forms, declarations reversed, declarations "
-                       "split over two files, generate / drop markers / regenerate histories, snapshot of every non-validator file, and the -race build on the multi-package "
+                       "split over two files, generate / drop markers / regenerate histories, the specs of one `type ( … )` group (markers on the group and on each spec) alone vs together in every order and in subsets, snapshot of every non-validator file, and the -race build on the multi-package "
                        "runs; every produced *_validator.go is compared byte for byte with the file produced when its package is processed alone; one evaluation = one file "
                        "comparison, exit status or snapshot check")
     res.cov["samples"] = ["theorem Props.c14_isolated", "theorem Props.c14_fs_last", {"summary": summary}]
